@@ -27,6 +27,7 @@ import (
 	"github.com/pdfcpu/pdfcpu/pkg/api"
 	"github.com/pdfcpu/pdfcpu/pkg/font"
 	"github.com/pdfcpu/pdfcpu/pkg/pdfcpu"
+	"github.com/pdfcpu/pdfcpu/pkg/pdfcpu/color"
 	"github.com/pdfcpu/pdfcpu/pkg/pdfcpu/model"
 	"github.com/pdfcpu/pdfcpu/pkg/pdfcpu/types"
 	"verif/vh"
@@ -58,6 +59,7 @@ type report struct {
 	Unstable   []string       `json:"unstable"`
 	Counts     map[string]int `json:"counts"`
 	Setup      []string       `json:"setup"`
+	Sentinels  []string       `json:"sentinels"` // "<pkg.var> after <phase>"
 	Done       bool           `json:"done"`
 }
 
@@ -92,7 +94,7 @@ func buildRaceWorker(r *vh.Run) (string, bool) {
 
 var (
 	reRaceSplit = regexp.MustCompile(`(?m)^==================\n`)
-	reFrameFn   = regexp.MustCompile(`(?m)^  (\S+?)\(`)
+	reFrameFn   = regexp.MustCompile(`(?m)^  (\S+)\(\)[ \t]*$`)
 )
 
 // raceClass derives a narrow stable class from one race report: the global variable if the
@@ -130,6 +132,7 @@ func shortFn(s string) string {
 	if i := strings.LastIndex(s, "/"); i >= 0 {
 		s = s[i+1:]
 	}
+	s = strings.NewReplacer("(*", "", ")", "").Replace(s) // model.(*XRefTable).Free -> model.XRefTable.Free
 	// closures: font.LoadUserFonts.func1 -> font.LoadUserFonts
 	s = regexp.MustCompile(`\.func\d+(\.\d+)*$`).ReplaceAllString(s, "")
 	return s
@@ -144,6 +147,30 @@ func partO(r *vh.Run, base string) {
 		os.WriteFile(filepath.Join(base, "ref.json"), b, 0o644)
 	}
 	r.CountN("worker:operations-in-pool", len(pr.pool))
+	sentinelFail := func(where string, l []string) {
+		seen := map[string]bool{}
+		for _, x := range l {
+			v := strings.SplitN(x, "=", 2)[0]
+			v = strings.SplitN(v, " ", 2)[0]
+			if seen[v] {
+				continue
+			}
+			seen[v] = true
+			r.OracleFail("shared-sentinel-modified:"+v, map[string]any{"seed": r.Seed, "tier": r.Tier, "where": where},
+				"package-level variable whose address is stored in per-document structures no longer has its initial value: "+strings.Join(l, "; "))
+		}
+		if len(l) == 0 {
+			r.OracleOK()
+		}
+	}
+	sentinelFail("sequential reference (plain build)", rf.Sentinels)
+	for _, o := range pr.pool[pr.poisonStart:] {
+		if strings.HasPrefix(rf.Ref[o.name], "ok/") && !strings.Contains(rf.Ref[o.name], "err:") {
+			r.Count("poisoner-accepted")
+		} else {
+			r.Count("poisoner-rejected")
+		}
+	}
 	for _, o := range pr.pool[pr.cryptoStart:pr.sharedStart] {
 		// a pipeline whose run-alone result is an error exercises nothing: make that visible
 		if strings.Contains(rf.Ref[o.name], "err:") {
@@ -206,6 +233,7 @@ func partO(r *vh.Run, base string) {
 	for _, u := range rep.Unstable {
 		r.Count("sequentially-unstable:" + u)
 	}
+	sentinelFail("concurrent worker", rep.Sentinels)
 	bad := len(rep.Mismatches)
 	for i := 0; i < rep.Checks-bad; i++ {
 		r.OracleOK()
@@ -372,11 +400,36 @@ func errText(err error) string {
 	return "err:" + hex.EncodeToString([]byte(s))
 }
 
+// sentinels returns the audited "address escapes, pointee only read" package variables that no longer
+// hold their initial value (coq/C40/Audit.v audited_escaping).  Called between phases, never concurrently
+// with operations.
+func sentinels() []string {
+	var bad []string
+	if v := model.VerifC40Zero(); v != 0 {
+		bad = append(bad, fmt.Sprintf("model.zero=%d", v))
+	}
+	if v := pdfcpu.VerifC40Zero(); v != 0 {
+		bad = append(bad, fmt.Sprintf("pdfcpu.zero=%d", v))
+	}
+	if color.Black != (color.SimpleColor{}) {
+		bad = append(bad, "color.Black")
+	}
+	if color.Red != (color.SimpleColor{R: 1}) {
+		bad = append(bad, "color.Red")
+	}
+	if color.Green != (color.SimpleColor{G: 1}) {
+		bad = append(bad, "color.Green")
+	}
+	return bad
+}
+
 // prepared is the workload: the pool of operations over a fixed set-up on disk.
 type prepared struct {
 	pool        []wop
 	cryptoStart int // pool[cryptoStart:sharedStart] are the encryption pipelines (RC4-40, RC4-128, AES-128, AES-256)
-	sharedStart int // pool[sharedStart:] are the operations on the shared package-level state
+	sharedStart int // pool[sharedStart:poisonStart] are the operations on the shared package-level state
+	poisonStart int // pool[poisonStart:] read the "poisoner" documents (poison.go); they come last
+	xsEnd       int // pool[:xsEnd] are reads of ordinary xref-stream documents (validate, optimize, split)
 	notes       []string
 }
 
@@ -452,6 +505,46 @@ func prepare(tmp, repo string, thorough, create bool) prepared {
 	add := func(kind, name string, f func() string) {
 		pr.pool = append(pr.pool, wop{kind, kind + ":" + name, safe(kind, f)})
 	}
+	// ordinary documents with cross-reference STREAMS and object streams (what pdfcpu writes by default):
+	// their reads go through the paths that consult the package-level zero values
+	for i, b := range pdfs {
+		xf := filepath.Join(tmp, "xs-"+pdfNames[i])
+		if create {
+			var w bytes.Buffer
+			if err := api.Optimize(bytes.NewReader(b), &w, model.NewDefaultConfiguration()); err == nil {
+				os.WriteFile(xf, w.Bytes(), 0o644)
+			}
+		}
+		xb, err := os.ReadFile(xf)
+		if err != nil {
+			continue
+		}
+		n := "xs-" + pdfNames[i]
+		add("xs-validate", n, func() string {
+			c, err := api.PageCount(bytes.NewReader(xb), plainConf())
+			return errText(api.Validate(bytes.NewReader(xb), plainConf())) + fmt.Sprintf("/%d/%s", c, errText(err))
+		})
+		add("xs-optimize", n, func() string {
+			var w bytes.Buffer
+			if err := api.Optimize(bytes.NewReader(xb), &w, plainConf()); err != nil {
+				return errText(err)
+			}
+			return normalise(w.Bytes())
+		})
+		add("xs-split", n, func() string {
+			ps, err := api.SplitRaw(bytes.NewReader(xb), 1, plainConf())
+			if err != nil {
+				return errText(err)
+			}
+			var parts []string
+			for _, p := range ps {
+				pb, _ := io.ReadAll(p.Reader)
+				parts = append(parts, fmt.Sprintf("%d-%d=%s", p.From, p.Thru, normalise(pb)))
+			}
+			return strings.Join(parts, ",")
+		})
+	}
+	pr.xsEnd = len(pr.pool)
 	for i, b := range pdfs {
 		b := append([]byte{}, b...)
 		n := pdfNames[i]
@@ -642,12 +735,25 @@ func prepare(tmp, repo string, thorough, create bool) prepared {
 		c := model.NewDefaultConfiguration()
 		return fmt.Sprintf("%v/%v/%d/%s", c.WriteObjectStream, c.EncryptUsingAES, c.EncryptKeyLength, c.TimestampFormat)
 	})
+	pr.poisonStart = len(pr.pool)
+	for _, sp := range poisonSpecs() {
+		pb := buildPoisoner(sp)
+		add("poisoner", sp.name, func() string {
+			res := errText(api.Validate(bytes.NewReader(pb), plainConf()))
+			var w bytes.Buffer
+			if err := api.Optimize(bytes.NewReader(pb), &w, plainConf()); err != nil {
+				return res + "/" + errText(err)
+			}
+			return res + "/" + normalise(w.Bytes())
+		})
+	}
 	return pr
 }
 
 type reference struct {
-	Ref      map[string]string `json:"ref"`
-	Unstable []string          `json:"unstable"`
+	Ref       map[string]string `json:"ref"`
+	Unstable  []string          `json:"unstable"`
+	Sentinels []string          `json:"sentinels"`
 }
 
 // sequentialReference runs every operation alone, twice: operations whose own output is not
@@ -658,11 +764,20 @@ func sequentialReference(pr prepared) reference {
 	for pass := 0; pass < 2; pass++ {
 		for _, o := range pr.pool {
 			res := o.run()
+			// the damage can be transient (a later document "repairs" the shared cell): look after every operation
+			for _, b := range sentinels() {
+				if len(rf.Sentinels) < 20 {
+					rf.Sentinels = append(rf.Sentinels, fmt.Sprintf("%s after %s run alone (sequential pass %d)", b, o.name, pass+1))
+				}
+			}
 			if pass == 0 {
 				rf.Ref[o.name] = res
 			} else if rf.Ref[o.name] != res {
 				uns[o.name] = true
 			}
+		}
+		for _, b := range sentinels() {
+			rf.Sentinels = append(rf.Sentinels, fmt.Sprintf("%s after sequential pass %d", b, pass+1))
 		}
 	}
 	for n := range uns {
@@ -686,6 +801,12 @@ func workerMain(args []string) {
 	writeReport := func() {
 		b, _ := json.Marshal(rep)
 		os.WriteFile(*repOut, b, 0o644)
+	}
+	checkSentinels := func(after string) {
+		for _, b := range sentinels() {
+			rep.Sentinels = append(rep.Sentinels, b+" after "+after)
+		}
+		rep.Counts["sentinel-checks"]++
 	}
 	t0 := time.Now()
 	lap := func(what string) {
@@ -724,7 +845,7 @@ func workerMain(args []string) {
 	// ---- stress phase: only the (cheap) operations on the shared package-level state, many of
 	// them, from a fresh start-up state, so that first loads, reloads, lookups, pool loads and
 	// DisableConfigDir really overlap
-	shared := pool[pr.sharedStart:]
+	shared := pool[pr.sharedStart:pr.poisonStart]
 	iters := 40
 	if thorough {
 		iters = 400
@@ -764,6 +885,7 @@ func workerMain(args []string) {
 		rep.Counts[fmt.Sprintf("stress:gomaxprocs=%d", p)]++
 	}
 	lap("stress phase")
+	checkSentinels("stress phase")
 	// ---- crypto phase: 8 goroutines x GOMAXPROCS sweep, only encryption pipelines on independent documents
 	crypto := pool[pr.cryptoStart:pr.sharedStart]
 	citers := 3
@@ -809,6 +931,61 @@ func workerMain(args []string) {
 		rep.Counts[fmt.Sprintf("crypto-phase:gomaxprocs=%d", p)]++
 	}
 	lap("crypto phase")
+	checkSentinels("crypto phase")
+	// ---- poisoner phase: one goroutine reads the poisoner documents over and over while seven others
+	// read, optimize and split ordinary cross-reference-stream documents
+	poison := pool[pr.poisonStart:]
+	victims := pool[:pr.xsEnd]
+	piters := 6
+	if thorough {
+		piters = 60
+	}
+	for _, p := range procs {
+		if len(poison) == 0 || len(victims) == 0 {
+			break
+		}
+		runtime.GOMAXPROCS(p)
+		g := 8
+		seeds := make([]int64, g)
+		for i := range seeds {
+			seeds[i] = rng.Int63()
+		}
+		var wg sync.WaitGroup
+		start := make(chan struct{})
+		for i := 0; i < g; i++ {
+			wg.Add(1)
+			go func(i int) {
+				defer wg.Done()
+				lr := rand.New(rand.NewSource(seeds[i]))
+				<-start
+				n := piters
+				if i == 0 {
+					n = len(poison)
+				}
+				for k := 0; k < n; k++ {
+					o := victims[lr.Intn(len(victims))]
+					if i == 0 {
+						o = poison[(k+int(seeds[0]%7))%len(poison)]
+					}
+					got := o.run()
+					mu.Lock()
+					rep.Counts["op:"+o.kind]++
+					if !unstable[o.name] {
+						rep.Checks++
+						if got != ref[o.name] && len(rep.Mismatches) < 200 {
+							rep.Mismatches = append(rep.Mismatches, mismatch{Op: o.name, Kind: o.kind, Want: ref[o.name], Got: got, Procs: p, G: g, Round: -3, Fresh: false})
+						}
+					}
+					mu.Unlock()
+				}
+			}(i)
+		}
+		close(start)
+		wg.Wait()
+		rep.Counts[fmt.Sprintf("poisoner-phase:gomaxprocs=%d", p)]++
+		checkSentinels(fmt.Sprintf("poisoner phase gomaxprocs=%d", p))
+	}
+	lap("poisoner phase")
 	tc := time.Now()
 	for round := 0; round < rounds; round++ {
 		if round >= 4 && time.Since(tc) > budget {
@@ -833,7 +1010,7 @@ func workerMain(args []string) {
 			for k := 0; k < opsPer; k++ {
 				var o wop
 				if rng.Intn(3) == 0 {
-					o = pool[pr.sharedStart+rng.Intn(len(pool)-pr.sharedStart)] // fonts, certs, config
+					o = pool[pr.sharedStart+rng.Intn(pr.poisonStart-pr.sharedStart)] // fonts, certs, config
 				} else {
 					o = pool[rng.Intn(len(pool))]
 				}
@@ -872,8 +1049,10 @@ func workerMain(args []string) {
 		if fresh {
 			rep.Counts["round:fresh-state"]++
 		}
+		checkSentinels(fmt.Sprintf("round %d", round))
 	}
 	lap("concurrent rounds")
+	checkSentinels("the end")
 	rep.Done = true
 	writeReport()
 }
